@@ -199,6 +199,9 @@ func runSigCase(ta *TestApp, seed uint64, idx int, rep *Report, profile string) 
 			key := H(ref)
 			if rng.Chance(15) && !forced {
 				key = randHex(16)
+			} else if rng.Chance(15) && !forced {
+				key = strings.ToUpper(key) // the same digest spelled with upper-case hex digits: another key of the registry
+				rep.Count("publish.key_spelled_in_upper_case")
 			}
 			val := links[rng.Intn(len(links))]
 			var ok bool
